@@ -544,7 +544,7 @@ func init() {
 				valid = (c.Fault.J == 1 || (!last.Bin && !endsWithHeader)) && !strings.HasPrefix(c.Var, "noprops")
 			}
 			for _, d := range cfDecoders(c.Fmt) {
-				if c.Var == "biglist" || strings.HasPrefix(c.Var, "biglist-") {
+				if c.Var == "biglist" || strings.HasPrefix(c.Var, "biglist-") || strings.HasPrefix(c.Var, "signedlist") {
 					if d.name == "ReadColorPLY" {
 						continue // rejected by design: the mesh reader wants the standard face element
 					}
